@@ -68,4 +68,347 @@ theorem lex_eq_spec (i : Fin 8) (raw : List Char) : Lex.lex (cfgOf i) raw = Spec
 
 example : (Spec.lex (cfgOf 7) 7 "SELECT a, (b + 1) FROM `t` -- x".toList).isOk = true := by decide +kernel
 
+/-! ## 3. token-grammar theorems about the shipped configuration -/
+
+/-- facts about the generated data that the statements below rely on (`rfl`: re-checked on every regeneration) -/
+theorem shipped_code : Gen.cfgS.code = Gen.Cls.code := rfl
+theorem shipped_depth : Gen.cfgS.depthLimit = 1 := rfl
+theorem shipped_end : Gen.cfgS.endStatus = .END := rfl
+theorem shipped_pre : Gen.cfgS.preChain = Gen.preChain := rfl
+
+/-- the class marks of a bare word: `HANDLE_WORD_TO_MARK_HASH.get(source.upper(), NAME)` — the model's own `Marks.word` -/
+def wordMark (w : List Char) : Nat := resolveMarks Gen.cfgS.upper Gen.cfgS.wordMarks 0 w (.word Gen.mark_NAME)
+
+/-- a character the pre-pass leaves alone -/
+abbrev plain (c : Char) : Bool := Plain Gen.preChain c
+
+/-- lookup of the shipped table on a character, through the specification -/
+theorem look {s : S} {c : Char} {o : Op} (h : cellD 7 s c.toNat = some o) : Gen.cfgS.lookup s (.ch c) = some o :=
+  (agree_cfg7 s (.ch c)).trans h
+
+theorem lookEnd {s : S} {o : Op} (h : atEndD 7 s = some o) : Gen.cfgS.lookup s .eof = some o :=
+  (agree_cfg7 s .eof).trans h
+
+/-- lookup on a whole character class, from a finite check -/
+theorem lookClass (s : S) (P : Nat → Bool) (o : Op)
+    (h : (ascii.all fun n => !P n || cellD 7 s n == some o) = true)
+    (h' : (cellD 7 s other == some o) = true ∨ ∀ n, n ∉ ascii → P n = false)
+    (c : Char) (hc : P c.toNat = true) : Gen.cfgS.lookup s (.ch c) = some o :=
+  look (cellD_class 7 s P (some o) h h' c.toNat hc)
+
+theorem digit_ascii (n : Nat) (h : n ∉ ascii) : isDigit n = false := by
+  cases hd : isDigit n with
+  | false => rfl
+  | true =>
+    refine absurd ((isAscii_iff n).mp ?_) h
+    simp only [isDigit, between, Bool.and_eq_true, Nat.ble_eq] at hd
+    simp only [isAscii, Bool.or_eq_true, Bool.and_eq_true, Nat.beq_eq, Nat.ble_eq]
+    have h0 : '0'.toNat = 48 := by decide
+    have h9 : '9'.toNat = 57 := by decide
+    omega
+
+theorem digit_plain (c : Char) (h : isDigit c.toNat = true) : plain c = true := by
+  have : ∀ p0 : Char, isDigit p0.toNat = false → (p0 != c) = true := by
+    intro p0 hp
+    cases hb : p0 != c with
+    | true => rfl
+    | false =>
+      have : p0 = c := by simpa using hb
+      rw [this, h] at hp; cases hp
+  simp only [plain, Plain, Gen.preChain, List.all_cons, List.all_nil, Bool.and_true, Bool.and_eq_true]
+  exact ⟨this _ (by decide), this _ (by decide), this _ (by decide)⟩
+
+/-- between tokens: an ignored blank is skipped, the end of the text finishes -/
+theorem wait_blank : Gen.cfgS.lookup .WAIT (.ch ' ') = some skip := look (by decide +kernel)
+theorem wait_newline : Gen.cfgS.lookup .WAIT (.ch '\n') = some skip := look (by decide +kernel)
+theorem wait_end : Gen.cfgS.lookup .WAIT .eof = some Spec.finish := lookEnd (by decide +kernel)
+
+/-! ### integer literals -/
+
+/-- the two states in which the window holds a non-empty string of digits -/
+def intSt (q : S) : Prop := q = .AFTER_0 ∨ q = .IN_INT
+
+theorem int_first (c : Char) (h : isDigit c.toNat = true) :
+    ∃ q, intSt q ∧ Gen.cfgS.lookup .WAIT (.ch c) = some (addTo q) := by
+  by_cases h0 : c = '0'
+  · subst h0; exact ⟨.AFTER_0, Or.inl rfl, look (by decide +kernel)⟩
+  · refine ⟨.IN_INT, Or.inr rfl, lookClass .WAIT (fun n => isDigit n && !(n =ᶜ '0')) _ (by decide +kernel)
+      (Or.inr fun n hn => by simp [digit_ascii n hn]) c ?_⟩
+    simp [h, isCh_toNat, h0]
+
+theorem int_next (q : S) (hq : intSt q) (c : Char) (h : isDigit c.toNat = true) :
+    Gen.cfgS.lookup q (.ch c) = some (addTo .IN_INT) := by
+  rcases hq with rfl | rfl
+  · exact lookClass .AFTER_0 isDigit _ (by decide +kernel) (Or.inr digit_ascii) c h
+  · exact lookClass .IN_INT isDigit _ (by decide +kernel) (Or.inr digit_ascii) c h
+
+theorem int_run (text : List Char) (ds : List Char) (hd : ∀ c ∈ ds, isDigit c.toNat = true) (q : S) (hq : intSt q)
+    (st nw : Nat) (stk : List (List Tok)) :
+    ∃ q', intSt q' ∧ feedAllWith (handle Gen.cfgS text) ds ⟨st, nw, q, stk⟩ = .ok ⟨st, nw + ds.length, q', stk⟩ := by
+  induction ds generalizing q nw with
+  | nil => exact ⟨q, hq, rfl⟩
+  | cons c cs ih =>
+    have h1 := handle_addTo shipped_code (text := text) (m := ⟨st, nw, q, stk⟩) (int_next q hq c (hd c (by simp)))
+    obtain ⟨q', hq', hrun⟩ := ih (fun d hm => hd d (by simp [hm])) .IN_INT (Or.inr rfl) (nw + 1)
+    refine ⟨q', hq', ?_⟩
+    simp only [feedAllWith, feedWith_adv h1, hrun, List.length_cons]
+    congr 2; omega
+
+/-- after the digits `ds` read from the start of the text -/
+theorem int_prefix (text : List Char) (ds : List Char) (hne : ds ≠ []) (hd : ∀ c ∈ ds, isDigit c.toNat = true) :
+    ∃ q, intSt q ∧ feedAllWith (handle Gen.cfgS text) ds {} = .ok ⟨0, ds.length, q, [[]]⟩ := by
+  cases ds with
+  | nil => exact absurd rfl hne
+  | cons c cs =>
+    obtain ⟨q0, hq0, hl⟩ := int_first c (hd c (by simp))
+    have h1 := handle_addTo shipped_code (text := text) (m := ({} : Mem)) hl
+    obtain ⟨q, hq, hrun⟩ := int_run text cs (fun d hm => hd d (by simp [hm])) q0 hq0 0 1 [[]]
+    refine ⟨q, hq, ?_⟩
+    simp only [feedAllWith, feedWith_adv h1]
+    show feedAllWith (handle Gen.cfgS text) cs ⟨0, 0 + 1, q0, [[]]⟩ = _
+    rw [hrun]; simp only [List.length_cons]; congr 2; omega
+
+/-- **C05.int_literal**: every non-empty string of digits lexes to exactly one leaf token, whose source is the whole
+string and whose marks are LITERAL|LITERAL_INT — at the end of the text and before a blank alike. -/
+theorem int_literal (ds : List Char) (hne : ds ≠ []) (hd : ∀ c ∈ ds, isDigit c.toNat = true) :
+    lex Gen.cfgS ds = .ok [.single ds (Gen.mark_LITERAL ||| Gen.mark_LITERAL_INT)] ∧
+    lex Gen.cfgS (ds ++ [' ']) = .ok [.single ds (Gen.mark_LITERAL ||| Gen.mark_LITERAL_INT)] := by
+  constructor
+  · rw [lex_plain _ _ (fun c hc => digit_plain c (hd c hc))]
+    obtain ⟨q, hq, hrun⟩ := int_prefix ds ds hne hd
+    have he : Gen.cfgS.lookup q .eof = some (emitAtEnd mInt) := by
+      rcases hq with rfl | rfl <;> exact lookEnd (by decide +kernel)
+    rw [lexText_ok hrun (handle_emitAtEnd shipped_code (m := ⟨0, ds.length, q, [[]]⟩) he rfl)]
+    rw [finish_end _ shipped_depth shipped_end, win_all]
+    rfl
+  · have hp : ∀ c ∈ ds ++ [' '], plain c = true := by
+      intro c hc
+      rcases List.mem_append.mp hc with h | h
+      · exact digit_plain c (hd c h)
+      · have : c = ' ' := by simpa using h
+        subst this; decide
+    rw [lex_plain _ _ hp]
+    obtain ⟨q, hq, hrun⟩ := int_prefix (ds ++ [' ']) ds hne hd
+    have hb : Gen.cfgS.lookup q (.ch ' ') = some (emitBefore mInt) := by
+      rcases hq with rfl | rfl <;> exact look (by decide +kernel)
+    have h1 := handle_emitBefore shipped_code (text := ds ++ [' ']) (m := ⟨0, ds.length, q, [[]]⟩) hb rfl
+    have h2 := handle_skip shipped_code (text := ds ++ [' '])
+      (m := ⟨ds.length, ds.length, .WAIT, [[] ++ [.single (win (ds ++ [' ']) ⟨0, ds.length, q, [[]]⟩ ds.length) mInt]]⟩)
+      (sym := .ch ' ') wait_blank
+    have hfeed : feedAllWith (handle Gen.cfgS (ds ++ [' '])) (ds ++ [' ']) {} =
+        .ok ⟨ds.length + 1, ds.length + 1, .WAIT, [[.single ds mInt]]⟩ := by
+      rw [feedAllWith_append_ok hrun, feedAllWith_one, feedWith_retry h1, h2, win_init]
+      rfl
+    rw [lexText_ok hfeed (handle_finish shipped_code (m := ⟨ds.length + 1, ds.length + 1, .WAIT, [[.single ds mInt]]⟩)
+      wait_end)]
+    exact finish_end _ shipped_depth shipped_end _ _ _
+
+/-- non-vacuity: `0`, `007` and `42` are such strings; the result is what the kernel computes -/
+example : lexesTo (lex Gen.cfgS "42".toList) [.single "42".toList 72] = true ∧
+    lexesTo (lex Gen.cfgS "007 ".toList) [.single "007".toList 72] = true ∧
+    (∀ c ∈ "007".toList, isDigit c.toNat = true) := by decide +kernel
+
+/-! ### words -/
+
+/-- a character that can be part of a bare word: not a blank, bracket, quote, operator / punctuation character or `#`
+(so: letters, digits, `_ $ @ ? : \ { }`, control characters, everything non-ASCII) -/
+def wordChar (c : Char) : Bool := isWordChar c.toNat
+/-- … and can begin a plain word: not a digit (that begins a number) and not `b B x X` (those may begin `b'01'`, `x'1F'`) -/
+def startsWord (c : Char) : Bool := isWordChar c.toNat && !isDigit c.toNat && !isBitPrefix c.toNat && !isHexPrefix c.toNat
+/-- the exact side condition of `word_token` -/
+def isWord : List Char → Bool
+  | [] => false
+  | c :: cs => startsWord c && cs.all wordChar
+/-- a character at which a word ends: blank, bracket, quote, operator / punctuation — `#` excepted (KNOWN deviation:
+the code does not end a word at `#`, see `Spec.deviations`) -/
+def endsWord (d : Char) : Bool := isWordEnd d.toNat && !(d.toNat =ᶜ '#')
+
+theorem wordEnd_ascii (n : Nat) (h : n ∉ ascii) : isWordEnd n = false := by
+  cases hd : isWordEnd n with
+  | false => rfl
+  | true =>
+    refine absurd ((isAscii_iff n).mp ?_) h
+    simp [isWordEnd, isBlank, isBracket, isQuote, isOpChar, oneOf, isCh] at hd
+    simp only [isAscii, Bool.or_eq_true, Bool.and_eq_true, Nat.beq_eq, Nat.ble_eq]
+    omega
+
+theorem word_first (c : Char) (h : startsWord c = true) : Gen.cfgS.lookup .WAIT (.ch c) = some (addTo .IN_WORD) :=
+  lookClass .WAIT (fun n => isWordChar n && !isDigit n && !isBitPrefix n && !isHexPrefix n) _ (by decide +kernel)
+    (Or.inl (by decide +kernel)) c h
+
+theorem word_next (c : Char) (h : wordChar c = true) : Gen.cfgS.lookup .IN_WORD (.ch c) = some (addTo .IN_WORD) :=
+  lookClass .IN_WORD isWordChar _ (by decide +kernel) (Or.inl (by decide +kernel)) c h
+
+theorem word_stop (d : Char) (h : endsWord d = true) : Gen.cfgS.lookup .IN_WORD (.ch d) = some emitWordBefore :=
+  lookClass .IN_WORD (fun n => isWordEnd n && !(n =ᶜ '#')) _ (by decide +kernel)
+    (Or.inr fun n hn => by simp [wordEnd_ascii n hn]) d h
+
+/-- reading a word from between tokens: all of it goes into the window -/
+theorem word_run (text w : List Char) (hw : isWord w = true) (n : Nat) (stk : List (List Tok)) :
+    feedAllWith (handle Gen.cfgS text) w ⟨n, n, .WAIT, stk⟩ = .ok ⟨n, n + w.length, .IN_WORD, stk⟩ := by
+  cases w with
+  | nil => cases hw
+  | cons c cs =>
+    simp only [isWord, Bool.and_eq_true, List.all_eq_true] at hw
+    have h1 := handle_addTo shipped_code (text := text) (m := ⟨n, n, .WAIT, stk⟩) (word_first c hw.1)
+    simp only [feedAllWith, feedWith_adv h1]
+    rw [feedAll_loop shipped_code (fun c => wordChar c = true) word_next cs hw.2]
+    simp only [List.length_cons]; congr 2; omega
+
+/-- **C05.word_boundary** (maximal munch, both directions): a word that begins between tokens extends over ALL its word
+characters and ends EXACTLY at the first character `d` that ends a word: after `w` and `d` the lexer is where it would
+be had it read `d` afresh between tokens at that position, with the one token `w` (marks: the model's own `Marks.word`
+— keyword table, default NAME) appended to the current frame. -/
+theorem word_boundary (pfx w rest : List Char) (d : Char) (hw : isWord w = true) (hd : endsWord d = true)
+    (f : List Tok) (fs : List (List Tok)) :
+    feedAllWith (handle Gen.cfgS (pfx ++ w ++ d :: rest)) (w ++ [d]) ⟨pfx.length, pfx.length, .WAIT, f :: fs⟩ =
+      (match handle Gen.cfgS (pfx ++ w ++ d :: rest)
+          ⟨pfx.length + w.length, pfx.length + w.length, .WAIT, (f ++ [.single w (wordMark w)]) :: fs⟩ (.ch d) with
+        | .error e => .error e
+        | .ok (m, _) => .ok m) := by
+  rw [feedAllWith_append_ok (word_run _ w hw _ _), feedAllWith_one]
+  have h1 := handle_emitWordBefore shipped_code (text := pfx ++ w ++ d :: rest)
+    (m := ⟨pfx.length, pfx.length + w.length, .IN_WORD, f :: fs⟩) (word_stop d hd) rfl
+  rw [feedWith_retry h1, win_mid]
+  rfl
+
+/-- **C05.word_token**: every word (`isWord`: non-empty, word characters only, not beginning with a digit or `b B x X`)
+lexes to exactly one token, whose source is the word and whose marks are the keyword's marks / NAME. -/
+theorem word_token (w : List Char) (hw : isWord w = true) (hp : ∀ c ∈ w, plain c = true) :
+    lex Gen.cfgS w = .ok [.single w (wordMark w)] := by
+  rw [lex_plain _ _ hp]
+  have hrun := word_run w w hw 0 [[]]
+  have he : Gen.cfgS.lookup .IN_WORD .eof = some emitWordAtEnd := lookEnd (by decide +kernel)
+  rw [lexText_ok (m := ⟨0, 0 + w.length, .IN_WORD, [[]]⟩) hrun
+    (handle_emitWordAtEnd shipped_code (m := ⟨0, 0 + w.length, .IN_WORD, [[]]⟩) he rfl)]
+  rw [finish_end _ shipped_depth shipped_end]
+  simp only [Nat.zero_add, win_all]
+  rfl
+
+/-- a word that is no keyword is a NAME -/
+example : wordMark "tbl_1".toList = Gen.mark_NAME ∧ isWord "tbl_1".toList = true ∧ isWord "naïve_表".toList = true := by
+  decide +kernel
+
+/-- maximal munch on `ab+cd`: `ab`, `+`, `cd` (and the hypotheses of `word_boundary` hold of it) -/
+example : lexesTo (lex Gen.cfgS "ab+cd".toList) [.single "ab".toList 2, .single "+".toList 0, .single "cd".toList 2] = true ∧
+    isWord "ab".toList = true ∧ endsWord '+' = true := by decide +kernel
+
+/-- the side condition is exact in the direction that matters: `#` does not end a word (KNOWN deviation) — `a#b` is one word -/
+theorem witness_hash_in_word : lexesTo (lex Gen.cfgS "a#b".toList) [.single "a#b".toList 2] = true := by decide +kernel
+
+/-! ### quoted strings and back-quoted names -/
+
+theorem plain_cons_snoc (q : Char) (p : List Char) (hq : plain q = true) (hp : ∀ c ∈ p, plain c = true) :
+    (∀ c ∈ q :: p, plain c = true) ∧ (∀ c ∈ q :: (p ++ [q]), plain c = true) := by
+  constructor
+  · intro c hc
+    rcases List.mem_cons.mp hc with rfl | h
+    · exact hq
+    · exact hp c h
+  · intro c hc
+    rcases List.mem_cons.mp hc with rfl | h
+    · exact hq
+    · rcases List.mem_append.mp h with h | h
+      · exact hp c h
+      · have : c = q := by simpa using h
+        subst this; exact hq
+
+/-- the common shape of the two string kinds: `q` opens (`sIn`), any character but `q` and the backslash is payload,
+`q` closes (`sAfter`), and the decision "complete" is taken at the next symbol -/
+theorem string_shape (q : Char) (sIn sAfter : S)
+    (hopen : Gen.cfgS.lookup .WAIT (.ch q) = some (addTo sIn))
+    (hbody : ∀ c : Char, (c ≠ q ∧ c ≠ '\\') → Gen.cfgS.lookup sIn (.ch c) = some (addTo sIn))
+    (hclose : Gen.cfgS.lookup sIn (.ch q) = some (addTo sAfter))
+    (hend : Gen.cfgS.lookup sAfter .eof = some (emitAtEnd (mString ||| mName)))
+    (hopenEnd : Gen.cfgS.lookup sIn .eof = some reject)
+    (hq : plain q = true)
+    (p : List Char) (hp : ∀ c ∈ p, c ≠ q ∧ c ≠ '\\') (hpl : ∀ c ∈ p, plain c = true) :
+    lex Gen.cfgS (q :: (p ++ [q])) = .ok [.single (q :: (p ++ [q])) (Gen.mark_LITERAL ||| Gen.mark_NAME)] ∧
+    lex Gen.cfgS (q :: p) = .error .lexical := by
+  obtain ⟨hpl1, hpl2⟩ := plain_cons_snoc q p hq hpl
+  have hfeed : ∀ text, feedAllWith (handle Gen.cfgS text) (q :: p) {} = .ok ⟨0, 1 + p.length, sIn, [[]]⟩ := by
+    intro text
+    have h1 := handle_addTo shipped_code (text := text) (m := ({} : Mem)) hopen
+    simp only [feedAllWith, feedWith_adv h1]
+    exact feedAll_loop shipped_code (fun c => c ≠ q ∧ c ≠ '\\') hbody p hp 0 (0 + 1) [[]] |>.trans (by simp)
+  constructor
+  · rw [lex_plain _ _ hpl2]
+    have h2 := handle_addTo shipped_code (text := q :: (p ++ [q])) (m := ⟨0, 1 + p.length, sIn, [[]]⟩) hclose
+    have hall : feedAllWith (handle Gen.cfgS (q :: (p ++ [q]))) (q :: (p ++ [q])) {} =
+        .ok ⟨0, 1 + p.length + 1, sAfter, [[]]⟩ := by
+      show feedAllWith (handle Gen.cfgS (q :: (p ++ [q]))) ((q :: p) ++ [q]) {} = _
+      rw [feedAllWith_append_ok (hfeed _), feedAllWith_one, feedWith_adv h2]
+    rw [lexText_ok hall (handle_emitAtEnd shipped_code (m := ⟨0, 1 + p.length + 1, sAfter, [[]]⟩) hend rfl)]
+    rw [finish_end _ shipped_depth shipped_end]
+    have hw : win (q :: (p ++ [q])) ⟨0, 1 + p.length + 1, sAfter, [[]]⟩ (1 + p.length + 1) = q :: (p ++ [q]) := by
+      have : 1 + p.length + 1 = (q :: (p ++ [q])).length := by simp; omega
+      rw [this]; exact win_all _ _ _ _
+    rw [hw]; rfl
+  · rw [lex_plain _ _ hpl1]
+    exact lexText_err_eof (hfeed _) (handle_reject shipped_code (m := ⟨0, 1 + p.length, sIn, [[]]⟩) hopenEnd)
+
+theorem ne_of_isCh {c ch : Char} (h : c ≠ ch) : (c.toNat =ᶜ ch) = false := by simp [isCh_toNat, h]
+
+/-- **C05.single_quoted**: for every payload `p` that contains neither the quote nor a backslash, `'p'` is one token
+whose source is the whole text, marked LITERAL (and NAME: a HARMLESS deviation, see `Spec.deviations`); the unterminated
+`'p` is rejected. -/
+theorem single_quoted (p : List Char) (hp : ∀ c ∈ p, c ≠ '\'' ∧ c ≠ '\\') (hpl : ∀ c ∈ p, plain c = true) :
+    lex Gen.cfgS ('\'' :: (p ++ ['\''])) = .ok [.single ('\'' :: (p ++ ['\''])) (Gen.mark_LITERAL ||| Gen.mark_NAME)] ∧
+    lex Gen.cfgS ('\'' :: p) = .error .lexical :=
+  string_shape '\'' .IN_SINGLE_QUOTE .IN_SINGLE_QUOTE_AFTER_27 (look (by decide +kernel))
+    (fun c hc => lookClass .IN_SINGLE_QUOTE (fun n => !(n =ᶜ '\'') && !(n =ᶜ '\\')) _ (by decide +kernel)
+      (Or.inl (by decide +kernel)) c (by simp [ne_of_isCh hc.1, ne_of_isCh hc.2]))
+    (look (by decide +kernel)) (lookEnd (by decide +kernel)) (lookEnd (by decide +kernel)) (by decide) p hp hpl
+
+/-- **C05.double_quoted**: the same for `"p"` -/
+theorem double_quoted (p : List Char) (hp : ∀ c ∈ p, c ≠ '"' ∧ c ≠ '\\') (hpl : ∀ c ∈ p, plain c = true) :
+    lex Gen.cfgS ('"' :: (p ++ ['"'])) = .ok [.single ('"' :: (p ++ ['"'])) (Gen.mark_LITERAL ||| Gen.mark_NAME)] ∧
+    lex Gen.cfgS ('"' :: p) = .error .lexical :=
+  string_shape '"' .IN_DOUBLE_QUOTE .IN_DOUBLE_QUOTE_AFTER_22 (look (by decide +kernel))
+    (fun c hc => lookClass .IN_DOUBLE_QUOTE (fun n => !(n =ᶜ '"') && !(n =ᶜ '\\')) _ (by decide +kernel)
+      (Or.inl (by decide +kernel)) c (by simp [ne_of_isCh hc.1, ne_of_isCh hc.2]))
+    (look (by decide +kernel)) (lookEnd (by decide +kernel)) (lookEnd (by decide +kernel)) (by decide) p hp hpl
+
+/-- **C05.back_quoted**: for every payload without a back-quote (a backslash is an ordinary character here), `` `p` `` is
+one NAME token whose source is the whole text; the unterminated `` `p `` is rejected. -/
+theorem back_quoted (p : List Char) (hp : ∀ c ∈ p, c ≠ '`') (hpl : ∀ c ∈ p, plain c = true) :
+    lex Gen.cfgS ('`' :: (p ++ ['`'])) = .ok [.single ('`' :: (p ++ ['`'])) Gen.mark_NAME] ∧
+    lex Gen.cfgS ('`' :: p) = .error .lexical := by
+  obtain ⟨hpl1, hpl2⟩ := plain_cons_snoc '`' p (by decide) hpl
+  have hbody : ∀ c : Char, c ≠ '`' → Gen.cfgS.lookup .IN_BACK_QUOTE (.ch c) = some (addTo .IN_BACK_QUOTE) :=
+    fun c hc => lookClass .IN_BACK_QUOTE (fun n => !(n =ᶜ '`')) _ (by decide +kernel) (Or.inl (by decide +kernel)) c
+      (by simp [ne_of_isCh hc])
+  have hfeed : ∀ text, feedAllWith (handle Gen.cfgS text) ('`' :: p) {} = .ok ⟨0, 1 + p.length, .IN_BACK_QUOTE, [[]]⟩ := by
+    intro text
+    have h1 := handle_addTo shipped_code (text := text) (m := ({} : Mem)) (q := .IN_BACK_QUOTE) (sym := .ch '`')
+      (look (by decide +kernel))
+    simp only [feedAllWith, feedWith_adv h1]
+    exact feedAll_loop shipped_code (fun c => c ≠ '`') hbody p hp 0 (0 + 1) [[]] |>.trans (by simp)
+  constructor
+  · rw [lex_plain _ _ hpl2]
+    have hclose : Gen.cfgS.lookup .IN_BACK_QUOTE (.ch '`') = some (emitWith mName) := look (by decide +kernel)
+    have h2 := handle_emitWith shipped_code (text := '`' :: (p ++ ['`'])) (m := ⟨0, 1 + p.length, .IN_BACK_QUOTE, [[]]⟩)
+      hclose rfl
+    have hw : win ('`' :: (p ++ ['`'])) ⟨0, 1 + p.length, .IN_BACK_QUOTE, [[]]⟩ (1 + p.length + 1) = '`' :: (p ++ ['`']) := by
+      have : 1 + p.length + 1 = ('`' :: (p ++ ['`'])).length := by simp; omega
+      rw [this]; exact win_all _ _ _ _
+    have hall : feedAllWith (handle Gen.cfgS ('`' :: (p ++ ['`']))) ('`' :: (p ++ ['`'])) {} =
+        .ok ⟨1 + p.length + 1, 1 + p.length + 1, .WAIT, [[.single ('`' :: (p ++ ['`'])) mName]]⟩ := by
+      show feedAllWith (handle Gen.cfgS ('`' :: (p ++ ['`']))) (('`' :: p) ++ ['`']) {} = _
+      rw [feedAllWith_append_ok (hfeed _), feedAllWith_one, feedWith_adv h2]
+      show Except.ok (⟨1 + p.length + 1, 1 + p.length + 1, .WAIT,
+        [[] ++ [.single (win ('`' :: (p ++ ['`'])) ⟨0, 1 + p.length, .IN_BACK_QUOTE, [[]]⟩ (1 + p.length + 1)) mName]]⟩ : Mem) = _
+      rw [hw]
+      rfl
+    rw [lexText_ok hall (handle_finish shipped_code (m := ⟨_, _, .WAIT, _⟩) wait_end)]
+    exact finish_end _ shipped_depth shipped_end _ _ _
+  · rw [lex_plain _ _ hpl1]
+    have hopenEnd : Gen.cfgS.lookup .IN_BACK_QUOTE .eof = some reject := lookEnd (by decide +kernel)
+    exact lexText_err_eof (hfeed _) (handle_reject shipped_code (m := ⟨0, 1 + p.length, .IN_BACK_QUOTE, [[]]⟩) hopenEnd)
+
+/-- non-vacuity: payloads with blanks, operators, comment openers, the other quote kinds and non-ASCII text -/
+example : (∀ c ∈ "it`s \"x\" -- /* 表".toList, (c ≠ '\'' ∧ c ≠ '\\') ∧ plain c = true) ∧
+    lexesTo (lex Gen.cfgS "'it`s \"x\" -- /* 表'".toList) [.single "'it`s \"x\" -- /* 表'".toList 10] = true ∧
+    lexesTo (lex Gen.cfgS "`a b`".toList) [.single "`a b`".toList 2] = true := by decide +kernel
+
 end C05
